@@ -10,6 +10,7 @@ import (
 
 	"verif/harness/distributor"
 	"verif/harness/minter"
+	"verif/harness/vesting"
 	"verif/harness/walk"
 )
 
@@ -53,6 +54,13 @@ func main() {
 		res, err := distributor.Run(*edges, *workers, *budget, *walks, *depth, *seed)
 		if err != nil {
 			fmt.Fprintln(os.Stderr, "distributor:", err)
+			os.Exit(2)
+		}
+		writeResult(*out, res)
+	case "vesting":
+		res, err := vesting.Run(*edges, *workers, *budget, *walks, *depth, *seed)
+		if err != nil {
+			fmt.Fprintln(os.Stderr, "vesting:", err)
 			os.Exit(2)
 		}
 		writeResult(*out, res)
